@@ -3,4 +3,5 @@ From LP Require Import Num C01_Model C08_Model.
 Extraction Language OCaml.
 Extraction "C08_m.ml" construct construct2 interpolate derivative interpolate2 locate
   set_prefactor multiply integrate local_minimum local_maximum global_minimum global_maximum
-  set_prefactor2 multiply2 global_minimum2 global_maximum2 Z.of_nat Z.to_nat.
+  set_prefactor2 multiply2 global_minimum2 global_maximum2
+  construct_rows construct_default construct2_default construct2_table Z.of_nat Z.to_nat.
